@@ -441,6 +441,19 @@ func c13run(w *report.W) {
 		record(t, fmt.Sprintf("[anchors fixed #%d] ", i), 30)
 		record("steps:\n  - command: c\n    "+strings.ReplaceAll(strings.TrimSpace(t), "\n", "\n    ")+"\n", fmt.Sprintf("[anchors fixed #%d inside a step] ", i), 40)
 	}
+	// groups nested in groups with a step at the bottom that falls back (unknown scalar / ill-typed command step / mapping
+	// without a kind): every enclosing group is reported once; inputs of <1 kB must parse within 60 s (they take microseconds)
+	for _, depth := range []int{1, 2, 3, 4, 6, 8, 10, 12, 14, 16, 18, 20, 22} {
+		for bi, bottom := range []string{`"frobnicate"`, `{"command":"c","env":{"A":{"b":"c"}}}`, `{"label":"no kind"}`} {
+			doc := bottom
+			for i := 0; i < depth; i++ {
+				doc = fmt.Sprintf(`{"group":"g%d","steps":[%s,"wait"]}`, i, doc)
+			}
+			hangLimit = 60 * time.Second
+			record(`{"steps":[`+doc+`]}`, fmt.Sprintf("[groups nested %d deep over a falling-back step #%d] ", depth, bi), 30+depth)
+			hangLimit = report.HangAfter
+		}
+	}
 	// layered merges (see C07): 2..80 layers, as top-level keys and inside a step; each must parse within 90 s
 	for _, n := range c07layerCounts {
 		for _, twice := range []bool{false, true} {
@@ -478,7 +491,7 @@ func init() {
 		ID:               "C13",
 		CrashIsViolation: true,
 		Rule: "(i) every concatenation of <=5 (quick) / <=6 (thorough) tokens over a 22-token alphabet (steps:, '- ', newline, indent, command: a, wait, group: g, &x, *x, <<:, [ ] { } ':' '\"' a ~ !!binary ? , .inf); " +
-			"(iii) the C07 anchor / alias / merge grammar (<=3/4 deviations, incl. cycles) as a top-level document and inside a command step, C07's hand-written cycle shapes and its layered merges of 2..80 layers (must parse within 90 s); (iv) every byte string of <=2/3 bytes over 46 YAML-significant / control / non-UTF-8 bytes, alone, at three positions of a document and (valid UTF-8 only) as an escaped JSON string used as key of the pipeline env, of nested unknown fields and of an unknown step; " +
+			"(iii) the C07 anchor / alias / merge grammar (<=3/4 deviations, incl. cycles) as a top-level document and inside a command step, C07's hand-written cycle shapes and its layered merges of 2..80 layers (must parse within 90 s), groups nested 1..22 deep over a step that falls back (within 60 s); (iv) every byte string of <=2/3 bytes over 46 YAML-significant / control / non-UTF-8 bytes, alone, at three positions of a document and (valid UTF-8 only) as an escaped JSON string used as key of the pipeline env, of nested unknown fields and of an unknown step; " +
 			"(ii) every generated pipeline document (<=1/2 deviations) and two base documents with every node replaced in turn by each of 12 values (null, string, int, bool, timestamp, [], [x], {}, {k: v}, [[x]], float, " +
 			"{steps: [wait]}), rendered as YAML or JSON. Oracle: Parse returns (fatal crashes and hangs are caught by a per-case journal / watchdog), never panics, and yields a hard error or a pipeline (+ warning); if usable: non-nil " +
 			"step list with one non-nil step per entry of the input step sequence (counted by an independent walk of yaml.v3's node graph with merges resolved), recursively inside groups; unknown steps marshal back to the input " +
